@@ -120,10 +120,13 @@ inductive Pay
   | bytes (n : Nat)
 deriving Repr, DecidableEq
 
-/-- A body reader: the source and how many bytes earlier reads have consumed. -/
+/-- A body reader: the source, how many bytes earlier reads have consumed, and how it ends — `failing = false`:
+with `io.EOF` after `actual` bytes; `failing = true`: with `io.ErrUnexpectedEOF` after `actual` bytes (the
+transport's body when the backend closes early, and every wrapper that passes that error on). -/
 structure Rd where
   src : Src
   consumed : Nat
+  failing : Bool
 deriving Repr, DecidableEq
 
 def Rd.left (b : Rd) : Nat := b.src.actual - b.consumed
@@ -132,14 +135,17 @@ def Rd.left (b : Rd) : Nat := b.src.actual - b.consumed
 def readFull (b : Rd) (n : Nat) : Int × Err :=
   if n == 0 then (0, .nil)
   else if n ≤ b.left then ((n : Int), .nil)
+  else if b.failing then ((b.left : Int), .unexpectedEOF)
   else if b.left == 0 then (0, .eof)
   else ((b.left : Int), .unexpectedEOF)
 
-/-- `io.ReadAll(io.LimitReader(body, max))`: (length of the slice read, error). -/
-def readAllLimited (lb : Rd × Int) : Nat × Err := (min lb.1.left lb.2.toNat, .nil)
+/-- `io.ReadAll(io.LimitReader(body, max))`: (length of the slice read, error). The limit reader stops by itself
+after `max` bytes; the body's own end is reached — and a failing body's error returned — only when fewer are left. -/
+def readAllLimited (lb : Rd × Int) : Nat × Err :=
+  (min lb.1.left lb.2.toNat, if lb.1.failing && decide (lb.1.left < lb.2.toNat) then .unexpectedEOF else .nil)
 
 /-- `io.Copy(io.Discard, body)`: (bytes copied, error). -/
-def copyDiscard (b : Rd) : Int × Err := ((b.left : Int), .nil)
+def copyDiscard (b : Rd) : Int × Err := ((b.left : Int), if b.failing then .unexpectedEOF else .nil)
 
 /-- What `(payload state, returned error)` means in terms of `Outcome`. -/
 def toOutcome : Pay × Err → Option Outcome
@@ -164,5 +170,10 @@ def fetchFailing (dflt limit : Int) (actual : Nat) : Outcome :=
   if lim < 0 then .stream
   else if actual ≤ lim.toNat then .shortRead
   else .tooLarge
+
+/-- `FetchPayload` for either kind of reader: a failing reader matters only when the length is unknown (with a
+declared length `io.ReadFull` asks for exactly that many bytes and reports the short read by itself). -/
+def fetchRd (dflt limit : Int) (failing : Bool) (s : Src) : Outcome :=
+  if failing && decide (s.declared < 0) then fetchFailing dflt limit s.actual else fetch dflt limit s
 
 end EgVerif.Payload
